@@ -814,7 +814,7 @@ def S4(ctx: Ctx) -> RuleResult:
     return r
 
 
-def _schema_args_unchanged(c: Call, tm: Term, vs: Optional[Term]) -> bool:
+def _schema_args_unchanged(c: Call, tm: Term, vs: Optional[Term], guards=()) -> bool:
     """type_check_references(<this_msg>, <variables>) with both arguments as received ({} standing in for None only)"""
     def same(x: Term, y: Term) -> bool:
         return isinstance(x, Sym) and isinstance(y, Sym) and x.name == y.name   # the parameter, whatever its annotation
@@ -826,6 +826,12 @@ def _schema_args_unchanged(c: Call, tm: Term, vs: Optional[Term]) -> bool:
     v = args[1]
     if same(v, vs):
         return True
+    if type(v).__name__ == 'DictT' and not v.items:
+        # an empty map on the path where none was given
+        for g, pol in norm_guards(tuple(guards)):
+            nt = none_test(g)
+            if nt is not None and same(nt[0], vs) and (nt[1] == pol):
+                return True
     if isinstance(v, Ite):
         nt = none_test(v.test)
         if nt is not None and same(nt[0], vs):
@@ -848,6 +854,7 @@ def S5(ctx: Ctx) -> RuleResult:
     if not loops:
         raise AnalysisError('S5', 'HplExpression.type_check_references: no traversal loop found')
     lp = loops[0]
+    lp_guards = next((o.guards for o in outs if any(e is lp for e in o.effects)), ())
     gen_mode = False
     if isinstance(lp.iter, Call) and call_recv(lp.iter) == self_t and base.resolve(call_name(lp.iter) or '') is not None and lp.target != '<while>':
         # two stages: a generator method walks the tree and yields the nodes to check; the loop here checks each of them
@@ -881,7 +888,7 @@ def S5(ctx: Ctx) -> RuleResult:
             if not gen_mode:
                 ps5 = fi.params()
                 for c5 in method_calls(effs, 'type_check_references'):
-                    if not _schema_args_unchanged(c5, Sym(ps5[1]), Sym(ps5[2]) if len(ps5) > 2 else None):
+                    if not _schema_args_unchanged(c5, Sym(ps5[1]), Sym(ps5[2]) if len(ps5) > 2 else None, tuple(lp_guards) + tuple(pg)):
                         r.fail('HplExpression.type_check_references:arguments', f'the accessor is checked with {str(c5)[-90:]}: the current message type and the alias map must be passed on as they were given', fi.where)
         elif pushes_children:
             r.ok(f'{desc} pushes children()')
@@ -895,6 +902,17 @@ def S5(ctx: Ctx) -> RuleResult:
             if acc not in c.mro() and res is not fi:
                 r.fail(f'{c.name}.type_check_references', 'non-accessor class overrides the generic walk', res.where)
     # accessors
+    # the arguments handed on, on every path of the method (not only the one whose loop was read above)
+    if not gen_mode:
+        ps5 = fi.params()
+        for o_ in outs:
+            for lp_ in (e for e in o_.effects if isinstance(e, Loop)):
+                if lp_ is lp:
+                    continue
+                for pg_, _flow, _binds, effs_ in lp_.paths:
+                    for c5 in method_calls(effs_, 'type_check_references'):
+                        if not _schema_args_unchanged(c5, Sym(ps5[1]), Sym(ps5[2]) if len(ps5) > 2 else None, tuple(o_.guards) + tuple(pg_)):
+                            r.fail('HplExpression.type_check_references:arguments', f'the accessor is checked with {str(c5)[-90:]}: the current message type and the alias map must be passed on as they were given', fi.where)
     acc = m.cls('HplDataAccess', 'S5')
     tab = slot_table(ctx)
     n = 0
